@@ -57,7 +57,7 @@ def run(rep, tier, seed):
                         "expat is the independent parser; it is trusted"]
     maxlen = 3 if big else 2
     recs = text_family(rep, "wf", ["WellFormed", "Idempotent"], maxlen)
-    for dev, inv in (("RawAttr", "WellFormed"), ("DoubleEscape", "WellFormed")):
+    for dev, inv in (("RawAttr", "WellFormed"), ("DoubleEscape", "WellFormed"), ("RawCData", "WellFormed")):
         r = text_family(rep, "wf", [inv], 2, deviations=(dev,))
         rep.notes.setdefault("negative_controls", []).append({"deviation": dev, "violated": r.violated})
         if r.violated != inv:
@@ -101,8 +101,12 @@ def run(rep, tier, seed):
             why = None     # a namespaced root is passed through untouched (C03): nothing may be added
         if why is None and cs["fam"] == "root" and not cs["ns"] and not r["out"].strip():
             why = "empty output"
+        if why is None and cs.get("kind") == "cdata" and c["cfg"].get("add_auto_styles", True):
+            # the sections together must spell the setting's value
+            if textc.conc(cs["s"]) not in textc.style_text(r["out"]):
+                why = "style sheet does not contain the setting's value"
         if why:
-            kind = "wellformed" if why.startswith("not well-formed") else "root"
+            kind = "wellformed" if why.startswith("not well-formed") else ("cdata" if "style sheet" in why else "root")
             rep.violation(f"wf:{src}:{kind}", {"case": cs, "xml": c["xml"], "cfg": c["cfg"], "out": vlib.trunc(r["out"], 2500), "detail": why})
         else:
             rep.traces += 1
